@@ -66,7 +66,7 @@ def run(rep, tier):
     ntune = len([x for x in allrecs if x["e"] == "Tune"])
     nthrew = len([x for x in allrecs if x["e"] == "Threw"])
     ncb = len([x for x in allrecs if x["e"] == "Cb"])
-    if ntuner < 50 or ntune < 20 or nthrew < 3:
+    if not rep.violations and (ntuner < 50 or ntune < 20 or nthrew < 3):
         raise CheckError("tuner driver coverage too small: %d tuner runs, %d tune runs, %d throws" % (ntuner, ntune, nthrew))
     rep.add(traces_validated_against_impl=accepted, tuner_runs=ntuner, tune_runs=ntune, nonfinite_runs=nthrew, callbacks_checked=ncb)
     ex0 = trace.split_executions(allrecs)
